@@ -18,6 +18,8 @@ pub struct LifePlan {
 pub struct Hist {
     pub script: Script,
     pub log: Vec<Op>,
+    /// simulated clock (wall ns, mono ns) at every log entry
+    pub stamps: Vec<(i128, i128)>,
     pub ends: Vec<RunEnd>,
     pub storage: StorageModel,
     pub interactions: usize,
@@ -39,7 +41,7 @@ pub fn run_history(script: Script, lives: &[LifePlan]) -> Hist {
         ends.push(end);
     }
     let g = lock(&w);
-    Hist { script, log: g.log.clone(), ends, storage: g.storage.clone(), interactions: g.interactions }
+    Hist { script, log: g.log.ops.clone(), stamps: g.log.stamps.clone(), ends, storage: g.storage.clone(), interactions: g.interactions }
 }
 
 pub fn app_views(s: &Script) -> Vec<AppView> {
